@@ -293,7 +293,7 @@ func c13Refresh(c *core.Ctx, pkg *packages.Package, class map[string]string) {
 				}
 			}
 			targets := append([]an.Loc{g.Locate(loop.X)}, rets...)
-			bnd := &an.Binder{Fn: fn, Eq: map[string]string{"recv|" + cachedBase: "self", cachedBase + "|recv": "self"}, Row: an.Row{"self": "F"}}
+			bnd := &an.Binder{Fn: fn, Eq: map[string]string{"recv|" + cachedBase: "self", cachedBase + "|recv": "self", cachedBase + "|nil": "absent"}, Row: an.Row{"self": "F", "absent": "F"}}
 			ex := g.Exec(g.EntryLoc(), targets, bnd.Leaf, an.ExecOpts{Record: true})
 			skipped := 0
 			for _, tr := range ex.Traces {
